@@ -214,6 +214,7 @@ PROPS["C25"] = {
                    "(defects D10, D11, D15, repaired by fix: commits) and hold now.",
     "kani": [
         H("physical::operators::sort", "sort_c::c25_kx_sort_batch_asks_arrow_for_the_stated_order", "sort::sort_batch (whole body; the full sort and the fused top-k of SortExec)", "Arrow's lexsort is asked for one sort column per ORDER BY key, in key order, evaluated from that key's expression, descending exactly for DESC, nulls_first exactly for NULLS FIRST, limit == fetch; every output column is the input column taken with those indices, in column order; an empty batch is returned as it is", lane="B", bound="<= 3 sort keys, <= 3 columns (every direction x NULL placement, every fetch, every row count)"),
+        H("physical::operators::sort", "bind_c::c25_kx_bind_order_by_direction_and_null_placement", "Binder::bind_order_by (direction / NULL-placement region through the SortExpr construction)", "DESC exactly when written (default ASC); NULLS FIRST exactly when written (default LAST); the bound key expression is the one stored; all nine option combinations (loop-free, full domain)", lane="KX"),
         H("physical::operators::sort", "fuse_c::c25_kx_limit_arm_means_limit_offset", "PhysicalPlanner::create_physical_plan_inner (the LogicalPlan::Limit arm, Sort+Limit fusion)", "the operator built for LIMIT n OFFSET m is LimitExec(m, n) over the child's plan, or a sort-with-fetch only when m == 0, fetch == Some(n), the child is a Sort node, its keys are used and the sort sits over the Sort's child; all skip / fetch values, spillable or not (loop-free, full domain)", lane="KX"),
         H(SPL, "sortb_c::c25_kx_run_sort_batch_asks_arrow_for_the_stated_order", "spillable::sort_batch (whole body; sorts every spilled run)", "same request for every run, without a limit", lane="B", bound="<= 3 sort keys, <= 3 columns"),
         H(SPL, "rows_c::c25_kx_compare_key_is_key_order", "streaming_k_way_merge::compare_rows (body of the per-key loop)", "for one sort key, every direction x NULL placement x cell state: a non-Equal result is the key's run order, Equal exactly on ties (loop-free, full domain)", lane="KX"),
@@ -235,7 +236,7 @@ PROPS["C25"] = {
         "assumed contract on arrow::array::make_comparator(l, r, SortOptions{descending, nulls_first}) and on lexsort_to_indices: both order values ascending (reversed when descending) and NULLs first iff nulls_first - the carrier in kani/spillable.rs::rows_c states it",
         "carriers (R6) for the spilled-sort regions: RecordBatch = a range of rows (num_rows, slice with its bounds precondition asserted), Vec = small list, run readers yield the following batches of their run, build_merged_batch = take(row i of the batch currently in run_buffers[run]); evaluate_expr / read_parquet / merge_runs are oracles",
     ],
-    "not_under_contract": ["Arrow's lexsort_to_indices / take themselves (the dependency's: what they are ASKED for is under contract, not what they do)", "SortExec::execute around sort_batch (input collection, concat_batches, Utf8 promotion)", "the minimum search across runs and build_merged_batch / build_merged_batch_final bodies (Arrow take/concat)", "multi_pass_merge file handling", "bind_order_by default NullsLast"],
+    "not_under_contract": ["Arrow's lexsort_to_indices / take themselves (the dependency's: what they are ASKED for is under contract, not what they do)", "SortExec::execute around sort_batch (input collection, concat_batches, Utf8 promotion)", "the minimum search across runs and build_merged_batch / build_merged_batch_final bodies (Arrow take/concat)", "multi_pass_merge file handling"],
     "technique": "Verus on the verbatim LimitState methods with RecordBatch as a carrier type and a ghost consumed-rows counter; Kani on three verbatim regions of the spilled sort compiled against carrier types (bounded in list lengths, labelled)",
     "level_text": "Deductive and unbounded for LIMIT/OFFSET: every skip/fetch pair, every batch size and every split of the input into batches.",
     "level_note": "Trusted: Verus/Z3; two carrier contracts on arrow RecordBatch; the async unfold loop and Arrow's sort kernels are outside.",
